@@ -35,8 +35,11 @@ ASSUMPTIONS = [
     "the header always keeps its 'description' entry (to_latex_document uses it as title; every piece of code in the tree keeps it)",
     "page split: to_latex_document puts 35 rows in each align environment (the number named in the property's mechanism) with a page break between environments; to_latex() is a single environment",
     "unnamed variables are called x_<id> in LaTeX (default_label_format='x_{}' is what latexoutput passes to all_variable_labels)",
-    "format selection: an explicit 'latex'/'opb'/'dimacs' request wins; otherwise the extension of the file name (.tex/.opb, case sensitive, as os.path.splitext sees it); otherwise DIMACS (CNF class) or OPB (OPB class, which has no DIMACS writer); file names starting with a dot, upper-case extensions, pathlib/bytes names are not generated",
+    "format selection: an explicit 'latex'/'opb'/'dimacs' request wins; otherwise the extension of the file name (.tex/.opb, case sensitive, as os.path.splitext sees it); otherwise DIMACS (CNF class) or OPB (OPB class, which has no DIMACS writer); file names starting with a dot, upper-case extensions, bytes names are not generated (pathlib names: only in the sub-check destination)",
     "pbgen's -of has the default 'opb', i.e. pbgen always makes an explicit request; cnfgen/pbgen are run in-process through cli()",
+    "destination: a destination object only has to offer write(str) (no flush/close/writelines/name, any truth value, any return value of write); the writers leave it open; a str is a file name, created or truncated, complete and closed when the call returns; the writers document 'file object or string', so a pathlib.Path may be refused (AttributeError/TypeError) as long as no file is touched and nothing is printed - if it is accepted it is a file name",
+    "destination: the format guessed for an object is taken from its string-valued 'name' attribute (open files, NamedTemporaryFile, codecs.open, user objects), otherwise the default format",
+    "environment: a file written by NAME is UTF-8 whatever the locale (the tree opens it with encoding='utf-8', the LaTeX document declares utf8 inputenc); it must decode as UTF-8 and denote the formula (exact equality with the StringIO text is only demanded in-process). The encoding of the standard output (destination None) and of a handle opened by the caller is the caller's: for the standard output a text it cannot encode is either refused with UnicodeEncodeError or written completely with the offending characters replaced (to_latex_document does the latter since 72d8609, the OPB writer the former); handles opened by the caller are only tested with an explicit utf-8 encoding; file and directory names are ASCII",
 ]
 
 PER_PAGE = 35
